@@ -101,7 +101,7 @@ func main() {
 			raw := prog.RawChecks(dec)
 			ol.DRaw = &raw
 			lx := prog.LexJSON(bytes.TrimSuffix(dec, []byte("\n")))
-			cl := prog.Collapse(lx, p.Opaque)
+			cl := prog.Collapse(lx, p.Opaque, p.OpaqueEl...)
 			ol.DTok, ol.DKeys = cl.Tokens, cl.Keys
 			ol.Tokens, ol.Keys = lx.Tokens, lx.Keys
 			if raw.EndsNL {
@@ -116,7 +116,7 @@ func main() {
 			body := bytes.TrimSuffix(out, []byte("\n"))
 			lx := prog.LexJSON(body)
 			ol.Tokens, ol.Keys = lx.Tokens, lx.Keys
-			cl := prog.Collapse(lx, p.Opaque)
+			cl := prog.Collapse(lx, p.Opaque, p.OpaqueEl...)
 			ol.CTok, ol.CKeys = cl.Tokens, cl.Keys
 			if ol.Raw.EndsNL {
 				ol.Tokens = append(ol.Tokens, "NL")
